@@ -74,8 +74,9 @@ func (e *Eng) apiOutcome() {
 							st.okBlock = iff.Block().Succs[1]
 							// the failure branch returns (nil, this error)
 							ret, ok := fail.Instrs[len(fail.Instrs)-1].(*ssa.Return)
-							if !ok || len(ret.Results) != 2 || !isNil(ret.Results[0]) || ret.Results[1] != errv {
-								bad = append(bad, fmt.Sprintf("%s: the failure of %s does not return (nil, its error)", e.pos(iff), n))
+							// (nil, the error itself or an error built from it - never nil)
+							if !ok || len(ret.Results) != 2 || !isNil(ret.Results[0]) || isNil(ret.Results[1]) {
+								bad = append(bad, fmt.Sprintf("%s: the failure of %s does not return (nil, an error)", e.pos(iff), n))
 							}
 						}
 					}
@@ -178,7 +179,26 @@ func (e *Eng) modeFlag() {
 					bad = append(bad, e.pos(st)+": under ndjson == false the flag must be 0")
 				}
 			default:
-				bad = append(bad, e.pos(st)+": the flag is stored at a place that does not depend on the ndjson argument")
+				// one store of a value chosen by the argument: 1 on the edge from the true branch, 0 on the others
+				phi, isPhi := st.Val.(*ssa.Phi)
+				okPhi := isPhi && tSucc != nil && len(tSucc.Preds) == 1
+				sawOne := false
+				if okPhi {
+					for i, ed := range phi.Edges {
+						fromTrue := tSucc.Dominates(phi.Block().Preds[i])
+						if fromTrue {
+							sawOne = true
+						}
+						if (fromTrue && !isConstInt(ed, 1)) || (!fromTrue && !isConstInt(ed, 0)) {
+							okPhi = false
+						}
+					}
+				}
+				if okPhi && sawOne {
+					n++ // stands for both values
+				} else {
+					bad = append(bad, e.pos(st)+": the flag is stored at a place that does not depend on the ndjson argument")
+				}
 			}
 		}
 		if n < 2 {
